@@ -175,7 +175,7 @@ let clauses_raw h (impl : string) : (string * bool) list =
             @ [ ("finish_last", check_finish_last cs);
                 ("no_rep", not (List.exists (function CRep _ -> true | _ -> false) cs));
                 ("ops_loose", check_ops_loose orc.o_on (n os) (n oe) (n ns) (n ne) ops) ]
-        | "compact" ->
+        | "compact" | "replace_compact" ->
             base
             @ [ ("finish_last", check_finish_last cs);
                 ("ops_loose", check_ops_loose orc.o_on (n os) (n oe) (n ns) (n ne) ops) ]
